@@ -11,9 +11,10 @@
    Model/Numeric.v (C01), evaluated on the data of the remapped pulse.                         *)
 From Coq Require Import String ZArith Reals List Sorted Bool.
 From FF Require Import Base.Ops Inst.RInst Base.RAlg Spec.Kron2 Spec.DigitPerm Spec.StrSort
-     Model.Numeric Model.Remap Model.Tie.C06 Proofs.RemapIdx Proofs.RemapCov Proofs.Remap Proofs.RemapFinal Proofs.RemapCompose Proofs.RemapEx.
+     Model.Numeric Model.Remap Model.Tie.C06 Proofs.RemapIdx Proofs.RemapCov Proofs.Remap Proofs.RemapFinal Proofs.RemapCompose Proofs.RemapDischarged Proofs.RemapEx.
 (* the comparison functions of the correspondence check are built with this file's dependency cone *)
 From FF Require Corr.RemapObs.
+From FF Require Model.Tensor Spec.Kron Proofs.KronBridgeC.
 Import ListNotations.
 Local Open Scope nat_scope.
 
@@ -39,6 +40,33 @@ Theorem C06_operator_conjugation : forall dq N o M, 0 < dq -> is_perm N o ->
   feq (dq ^ N) (toF (tt2 0c dq N o M)) (fmul (dq ^ N) P (fmul (dq ^ N) (toF M) (fadj P))) /\ funitary (dq ^ N) P.
 Proof. exact tt2_is_conjugation. Qed.
 Print Assumptions C06_operator_conjugation.
+
+(* --- DISCHARGED: the transposition used by the remap model is what the C16 model of util.tensor_transpose
+       (Model/Tensor.v at complex entries, tied to the source by Model/Tie/C16.v) returns; bridge Proofs/KronBridgeC.v
+       (agent-c16).  Remaining: eigenvalues (rank-1 transposition, compared exactly by the correspondence check), the
+       normalisation and the stack axis of Basis.pauli, cache consistency of the input (C07) --- *)
+Theorem C06_transpose_discharged : forall dq N ord (M : Mat), 0 < dq -> 1 <= N -> is_perm N ord ->
+  exists Rr, Tensor.tensor_transpose 2 (KronBridgeC.ofMat (dq ^ N) M) (map Z.of_nat ord) [repeat dq N; repeat dq N] = Tensor.Ok Rr /\
+             meq (dq ^ N) (tt2 0c dq N ord M) (KronBridgeC.toMat (dq ^ N) Rr).
+Proof. exact tt2_is_c16_transpose. Qed.
+Theorem C06_operators_discharged : forall (p r : rpulse) order dq mapping,
+  rremap p order dq mapping = Some r -> 0 < dq -> 1 <= ilog dq (p_d p) -> wf_pulse p ->
+  let N := ilog dq (p_d p) in
+  exists cidx nidx,
+    is_perm (length (c_ids p)) cidx /\ is_perm (length (n_ids p)) nidx /\
+    (forall a, a < length (c_ids p) -> exists Rr,
+        Tensor.tensor_transpose 2 (KronBridgeC.ofMat (dq ^ N) (nthm (c_opers p) (nth a cidx 0))) (map Z.of_nat order) [repeat dq N; repeat dq N] = Tensor.Ok Rr /\
+        meq (dq ^ N) (nthm (c_opers r) a) (KronBridgeC.toMat (dq ^ N) Rr)) /\
+    (forall a, a < length (n_ids p) -> exists Rr,
+        Tensor.tensor_transpose 2 (KronBridgeC.ofMat (dq ^ N) (nthm (n_opers p) (nth a nidx 0))) (map Z.of_nat order) [repeat dq N; repeat dq N] = Tensor.Ok Rr /\
+        meq (dq ^ N) (nthm (n_opers r) a) (KronBridgeC.toMat (dq ^ N) Rr)).
+Proof. exact remap_operators_discharged. Qed.
+Theorem C06_pauli_chain_discharged : forall (sig : nat -> KronBridgeC.carr) N k, 1 <= N ->
+  (forall a, Kron.wf 2 (sig a) /\ Tensor.shp (sig a) = [2; 2]) ->
+  exists Rr, Tensor.tensor 2 (map sig (digits 4 N k)) = Tensor.Ok Rr /\
+             feq (2 ^ N) (KronBridgeC.cF Rr) (kronl 2 (map (fun a => KronBridgeC.cF (sig a)) (digits 4 N k))).
+Proof. exact pauli_chain_discharged. Qed.
+Print Assumptions C06_operators_discharged.
 
 (* --- Pauli basis: P C_k P^dagger = C_{pi(k)} --- *)
 Theorem C06_pauli_covariance : forall sigma nrm N o k, is_perm N o -> k < 4 ^ N ->
